@@ -134,7 +134,7 @@ SPEC = {
              'every new label is a NOT used by exactly one rewritten gate and is in exactly the blocks containing that '
              'gate, zero-input circuits with a constant raise. Non-trivial: >=2 gates were rewritten.'),
     'assumptions': ['reference tables from vlib/refsem.py; uuid4 replaced by a seeded stream'],
-    'subs': [Sub('bench', cases, check_bench, {'quick': 3000, 'thorough': 40000})],
+    'subs': [Sub('bench', cases, check_bench, {'quick': 3000, 'thorough': 200000})],
     'required_classes': {'bench': ['blocks', 'binary_identical_operands', 'rewritten_output', 'rewritten_in_block',
                                    'constant', 'LR_gate', 'cmp_gate', 'zero_inputs_constant_rejected']},
 }
